@@ -1,6 +1,8 @@
 """Mutation trials for C19 (documentation of what was tried; run manually): applies each mutation to the scratch
 library copy $AITB_REPO, runs tools/check.py C19 --tier quick, prints the outcome, reverts the copy.
-Usage: AITB_REPO=/var/tmp/rp/c19 python3 tools/mutations_c19.py [M1 M3 ...]"""
+Usage: AITB_REPO=/var/tmp/rp/c19 python3 tools/mutations_c19.py [--unit] [M1 M3 ...]
+--unit additionally builds and runs the repository's own unit tests of the planners (test/MDP/MCTSTests.cpp,
+test/POMDP/POMCPTests.cpp, test/POMDP/rPOMCPTests.cpp, test/UtilsProbabilityTests.cpp) against the mutated tree."""
 import subprocess, os, sys, json
 REPO = os.environ.get('AITB_REPO', '/var/tmp/rp/c19'); WT = os.path.dirname(os.path.dirname(os.path.abspath(__file__)))
 env = dict(os.environ, AITB_REPO=REPO)
@@ -8,6 +10,8 @@ MCTS = 'include/AIToolbox/MDP/Algorithms/MCTS.hpp'
 POMCP = 'include/AIToolbox/POMDP/Algorithms/POMCP.hpp'
 RPOMCP = 'include/AIToolbox/POMDP/Algorithms/rPOMCP.hpp'
 ROLL = 'include/AIToolbox/MDP/Algorithms/Utils/Rollout.hpp'
+GRAPH = 'include/AIToolbox/POMDP/Algorithms/Utils/rPOMCPGraph.hpp'
+PROB = 'include/AIToolbox/Utils/Probability.hpp'
 M = [
  ('M1 MCTS descends one level too deep (depth test off by one)', MCTS,
   'if ( depth + 1 < maxDepth_ && !model_.isTerminal(s1) ) {', 'if ( depth < maxDepth_ && !model_.isTerminal(s1) ) {'),
@@ -49,6 +53,21 @@ M = [
   'else if ( a == b.bestAction ) {', 'else if ( false && a == b.bestAction ) {'),
  ('M14 MCTS UCT prefers the last untried action', MCTS,
   'if ( actionValue > bestValue ) {', 'if ( actionValue >= bestValue ) {'),
+ # ---- round 3
+ ('X1 rPOMCP promotion: beliefSize_ counts map entries instead of particles', GRAPH,
+  '            beliefSize_ += pair.second.N;\n', '            beliefSize_ += 1;\n'),
+ ('X2 rPOMCP sampleBelief walk stops one entry early (pick <= 1)', GRAPH,
+  'if ( pick < 1 ) return sampleBelief_[index].first;', 'if ( pick <= 1 ) return sampleBelief_[index].first;'),
+ ('X3 getMostCommonParticle forgets to raise the best count', GRAPH,
+  '                bestGuessCount = pair.second;\n', ''),
+ ('X4 rPOMCP head built from a belief: particle count passed as the dimension of the belief', GRAPH,
+  'generatedSamples[AIToolbox::sampleProbability(S, b, *rand_)] += 1;', 'generatedSamples[AIToolbox::sampleProbability(beliefSize_, b, *rand_)] += 1;'),
+ ('X5 POMCP makeSampledBelief: particle count passed as the dimension of the belief', POMCP,
+  'belief.push_back(sampleProbability(S, b, rand_));', 'belief.push_back(sampleProbability(beliefSize_, b, rand_));'),
+ ('X8 rollout, variable action space: the action distribution is built once, for the first state', ROLL,
+  None, None),
+ ('X7 rPOMCP promotion: the particle map is cleared before it is copied into the sampling belief', GRAPH,
+  None, None),
 ]
 
 
@@ -61,10 +80,46 @@ def special(name, s):
         a = '                if (m.isTerminal(s))\n                    return totalRew;\n'
         i = s.rfind(a)
         return (s[:i] + s[i + len(a):], 1) if i >= 0 else (s, 0)
+    if name.startswith('X8'):
+        a = ('            for (unsigned depth = 0; depth < maxDepth; ++depth ) {\n                std::uniform_int_distribution<size_t> dist(0, m.getA(s)-1);\n')
+        b = ('            std::uniform_int_distribution<size_t> dist(0, m.getA(s)-1);\n            for (unsigned depth = 0; depth < maxDepth; ++depth ) {\n')
+        return s.replace(a, b), s.count(a)
+    if name.startswith('X7'):
+        a = '        TrackBelief<UseEntropy>().swap(this->trackBelief_); // Clear belief memory\n'
+        i = s.find(a)
+        j = s.find('        sampleBelief_.reserve(this->trackBelief_.size());')
+        if i < 0 or j < 0: return s, 0
+        s2 = s[:i] + s[i + len(a):]
+        return s2.replace('        sampleBelief_.reserve(this->trackBelief_.size());', a + '        sampleBelief_.reserve(this->trackBelief_.size());'), 1
     return s, 0
 
 
-sel = sys.argv[1:]
+def unit_tests():
+    """build + run the repository's own unit tests of the planners against the (mutated) tree; returns a summary string"""
+    sys.path.insert(0, os.path.join(WT, 'tools'))
+    os.environ['AITB_REPO'] = REPO
+    import common as C
+    lib, log = C.build_lib()
+    if not lib:
+        return 'library does not build'
+    out = []
+    scratch = '/var/tmp/scratch-c19'; os.makedirs(scratch, exist_ok=True)
+    for t in ['test/MDP/MCTSTests.cpp', 'test/POMDP/POMCPTests.cpp', 'test/POMDP/rPOMCPTests.cpp', 'test/UtilsProbabilityTests.cpp']:
+        exe = os.path.join(scratch, 'ut-' + os.path.basename(t)[:-4])
+        cmd = [C.CXX] + C.CXXFLAGS + ['-I' + os.path.join(REPO, 'test'), os.path.join(REPO, t), lib] + C.LDLIBS + ['-lboost_unit_test_framework', '-o', exe]
+        r = subprocess.run(cmd, capture_output=True, text=True)
+        if r.returncode != 0:
+            out.append(os.path.basename(t) + ': does not compile'); continue
+        try:
+            r = subprocess.run(['timeout', '900', exe], capture_output=True, text=True, env=dict(os.environ, **C.SAN_ENV))
+            out.append(os.path.basename(t) + (': pass' if r.returncode == 0 else ': FAIL rc=%d %s' % (r.returncode, (r.stdout + r.stderr)[-300:].replace('\n', ' | '))))
+        finally:
+            if os.path.exists(exe): os.remove(exe)
+    return '; '.join(out)
+
+
+UNIT = '--unit' in sys.argv
+sel = [x for x in sys.argv[1:] if x != '--unit']
 for name, f, a, b in M:
     if sel and name.split()[0] not in sel:
         continue
@@ -78,13 +133,17 @@ for name, f, a, b in M:
             print(name, 'PATTERN COUNT', s.count(a)); continue
         s2 = s.replace(a, b)
     open(p, 'w').write(s2)
+    if UNIT:
+        print('== ', name.split()[0], 'unit tests:', unit_tests(), flush=True)
     r = subprocess.run(['python3', 'tools/check.py', 'C19', '--tier', 'quick'], cwd=WT, env=env, capture_output=True, text=True)
     lines = [l for l in r.stdout.splitlines() if l.startswith('VIOLATION') or l.startswith('[C19]')]
-    print('==', name, 'exit', r.returncode)
+    print('==', name, 'exit', r.returncode, flush=True)
     for l in lines[:4]:
         print('   ', l[:200])
     for l in lines:
         if l.startswith('VIOLATION'):
             rp = l.split('replay=')[1].split()[0]
             d = json.load(open(rp)); print('    first:', (d.get('verdict') or d.get('detail') or str(d.get('broken'))[:300])[:260]); break
-    subprocess.run(['git', '-C', REPO, 'checkout', '--', '.'])
+    open(p, 'w').write(s)   # restore the file (works for a plain copy too)
+    if os.path.exists(os.path.join(REPO, '.git')):
+        subprocess.run(['git', '-C', REPO, 'checkout', '--', '.'])
